@@ -48,10 +48,10 @@ CHECKS = {
   ref="DESIGN.md §7 C12, §3.3",
   note="Universe of 2 (quick) / 3 (thorough) mentioned label values plus witnesses; operands of numeric operators are integers >= 0 (ValidateRequirement). String() and the error text of Compatible are not checked."),
  "C13": dict(
-  technique="bounded symbolic execution (go/ssa -> SMT, z3) of requirement serialisation (NodeSelectorRequirements -> NewNodeSelectorRequirementsWithMinValues) and Requirement.Any with math/rand as an arbitrary value within its contract",
-  text="Serialise/parse round trip from every well-formed in-memory requirement and from every pair of validated expressions admits exactly the same label values and keeps minValues; Any() never panics on validated operands and returns an admitted value. Known findings C13-F1 (exclusion list dropped next to a bound) and C13-F3 (Any ignores exclusions) are reported; C13-F2 (Any panic) was repaired by a fix: commit.",
+  technique="bounded symbolic execution (go/ssa -> SMT, z3) of requirement serialisation (NodeSelectorRequirements -> NewNodeSelectorRequirementsWithMinValues), Requirement.Any with math/rand as an arbitrary value within its contract, NodeClaimTemplate.ToNodeClaim for sibling NodeClaims of one batch (NewNodeClaimTemplate, NewNodeClaim, CanAdd/Add, FinalizeScheduling) and InstanceTypes.Truncate/SatisfiesMinValues with symbolic prices",
+  text="Serialise/parse round trip from every well-formed in-memory requirement and from every pair of validated expressions admits exactly the same label values and keeps minValues; Any() never panics on validated operands and returns an admitted value. Two sibling NodeClaims of one NodePool turned into launch requests one after the other: written requirements admit key by key what the in-memory ones admit, the instance-type list is the scheduler's option list, requests = pod + minimum daemon overhead of the groups still in play, labels are the template's plus values backed and admitted by the NodeClaim's own requirements (no leakage between siblings or into the template), taints and hash annotation are the template's. Truncation of 3 (4) instance types with symbolic prices to any limit keeps every minValues floor (instance-type and a second key) or fails under the strict policy. Known findings C13-F1 and C13-F3 are reported; C13-F2 (Any panic) was repaired by a fix: commit.",
   ref="DESIGN.md §7 C13",
-  note="Claims the requirements half of the property (harnesses 1-2 of DESIGN §7 C13). Instance-type truncation, resource requests and template labels/hash are not covered yet by this check."),
+  note="Label values: 2 (3) atoms plus witnesses; operands of numeric operators are integers >= 0 (ValidateRequirement). The hash value itself is modelled (see C15). Reserved offerings, DRA annotations and the BestEffort minValues policy are outside."),
  "C05": dict(
   technique="bounded symbolic execution (go/ssa -> SMT, z3) of Budget.IsActive/GetAllowedDisruptions, NodePool.GetAllowedDisruptionsByReason and BuildDisruptionBudgetMapping over real state.Cluster objects; symbolic clock, durations, node counts and budget counts; cron schedules modelled by period/offset and validated natively against robfig/cron",
   text="IsActive is compared with the statement's window definition [hit, hit+duration) for six uniform-period schedules at a symbolic instant and duration; the allowed-disruptions value for up to 2 (3) budgets with every combination of count/percent/malformed nodes, schedule none/active-or-not/malformed and five reasons shapes equals the oracle 'most restrictive applicable active budget, malformed = zero'; the per-pool mapping built from a real cluster state of up to 3 (4) nodes equals allowed minus nodes already not ready or being deleted, never negative. C05-F1 (reasons: [] ignored) was repaired by a fix: commit.",
